@@ -446,6 +446,12 @@ pub fn path_new_lines(run: &mut Run, id: &str, src: &Beatmap, repro: &str) {
             run.count("mpn:probe-panicked");
             continue;
         };
+        // `end_time - start_time` itself overflows `i32` (negative start, end saturated at i32::MAX):
+        // the release build wraps (negative segment duration), the model is the checked semantics
+        if i64::from(p.end_time) - i64::from(p.start_time) > i64::from(i32::MAX) {
+            run.count("mpn:excluded:end-minus-start-overflows-i32");
+            continue;
+        }
         run.count("mpn:lines");
         run.count(&format!("mpn:segment:{}", match p.segment_duration { i32::MIN..=-1 => "<0", 0 => "0", 1..=90 => "1-90", 91..=120 => "91-120", 121..=160 => "121-160", 161..=200 => "161-200", 201..=400 => "201-400", _ => ">400" }));
         if p.dist >= 0.0 && p.beat_len >= 0.0 && p.slider_multiplier > 0.0 {
@@ -502,6 +508,13 @@ pub fn trace_map(run: &mut Run, id: &str, src: &Beatmap, mods: &GameMods, plain:
                 run.count(&format!("trace:hit:branch:{}", hit_branch(total, *convert_type, prev, cd)));
                 let occ = prev.iter().collect::<BTreeSet<_>>().len();
                 run.count(&format!("trace:prev-occupancy:keys={total}:{occ}"));
+                // the two 7K+1 facts (`Free8`) the no-panic theorem assumes of every previous pattern
+                if total == 8 && prev.len() == 1 && prev[0] == 0 {
+                    run.fail("oracle:mania-8K-lone-special-column", "", id, format!("previous pattern is a lone note in column 0 (convert_type {convert_type})"), repro.to_owned());
+                }
+                if total == 8 && convert_type & MIRROR != 0 {
+                    run.fail("oracle:mania-8K-mirror-flag", "", id, format!("convert_type {convert_type} has MIRROR in 7K+1"), repro.to_owned());
+                }
                 if total == 8 && (1..8).all(|c| prev.contains(&c)) {
                     run.fail("oracle:mania-8K-no-free-column", "", id, format!("previous pattern {prev:?} occupies all of columns 1-7"), repro.to_owned());
                 }
